@@ -9,8 +9,8 @@ def prop(pid, **kw):
     kw.setdefault('level', 'other'); kw.setdefault('assumptions', COMMON_ASSUME); kw.setdefault('floors', {})
     PROPS[pid] = kw
 
-prop('C01', rules=['C01.mask', 'rows', 'regions', 'defer_plan', 'visitset', 'plans', 'plans_mp11'], take=['C01.mask', 'C01.once', 'C01.levels', 'C05.cell', 'C03.visit-set', 'C01.plan'],
-     floors={'mask-sites:back': 1, 'mask-sites:back11': 1, 'mask-sites:backmp11': 1, 'plan-table:back': 1, 'plan-table:back11': 1, 'plan-table:backmp11': 1},
+prop('C01', rules=['C01.mask', 'rows', 'regions', 'defer_plan', 'visitset', 'plans', 'plans_mp11', 'plans_fct', 'plans_mp11_table'], take=['C01.mask', 'C01.once', 'C01.levels', 'C05.cell', 'C03.visit-set', 'C01.plan'],
+     floors={'mask-sites:back': 1, 'mask-sites:back11': 1, 'mask-sites:backmp11': 1, 'plan-table:back': 1, 'plan-table:back11': 1, 'plan-table:backmp11': 1, 'plan-table:back-fct': 1, 'mp11-table': 1, 'fct-chain-add': 1, 'fct-state-dispatch': 1},
      explanation='Static rules over the type-checked instantiations of the dispatch code: C01.mask (no equality test on the handled enumerator of a result code).')
 prop('C12', rules=['C12.assign', 'catch', 'flag', 'rows'], take=['C12.assign', 'C12.catch', 'C04.flag-exc', 'C04.flag-exit', 'C04.flag', 'C10.first', 'C19.slots', 'C02.order'],
      floors={'dispatch-site:back:do_process_helper': 1, 'dispatch-site:back11:do_process_helper': 1, 'dispatch-site:backmp11:process_event_internal': 1, 'dispatch-site:backmp11:process_completion_transition': 1},
@@ -100,7 +100,7 @@ prop('C14', rules=['rows', 'rowtags'], take=['C14.rows-exec', 'C14.rows', 'C14.p
              'front-row:functor_row.hpp:Row': 1, 'front-row:functor_row.hpp:Internal': 1, 'front-row:internal_row.hpp:a_internal': 1, 'front-row:internal_row.hpp:g_internal': 1,
              'front-row:internal_row.hpp:internal': 1, 'front-row:internal_row.hpp:_internal': 1, 'tl-puml-asserts': 20, **FLOOR_EXT, **FLOOR_INT},
      explanation='Front-end / back-end agreement: every front-end row class carries the tag matching the calls it provides (guard_call / action_call, Guard / Action typedefs, internal iff no target) (C14.rows); every executor instantiation calls the guard / action exactly when the row\'s tag says so and has a guard-reject path when the row has a guard (C14.rows-exec); PlantUML: a generated matrix of spellings of one transition line (1-4 dashes, padding, actions/guard in both orders, 0-3 actions, guard expressions with ! && || and one parenthesis level) must yield the row type of the canonical spelling, plus fixed expectations for parts and operator precedence, compiled as static_asserts with clang -fsyntax-only (C14.puml). This decides those strings, not the whole grammar.')
-prop('C18', rules=['casts', 'plans', 'plans_mp11', 'queues'], take=['C18.cast', 'C01.plan', 'C04.target', 'C18.frow-event'],
+prop('C18', rules=['casts', 'plans', 'plans_mp11', 'plans_fct', 'plans_mp11_table', 'queues'], take=['C18.cast', 'C01.plan', 'C04.target', 'C18.frow-event'],
      floors={'cell-cast:back11': 1, 'plan-table:back': 1, 'plan-table:back11': 1, 'stored-callable:back:MSGQ': 1, 'stored-callable:back11:MSGQ': 1},
      explanation='Event matching: for every instantiated back/back11 runtime-speed dispatch table the candidates installed per state equal the rows allowed by "same type, public base, or Kleene" in table priority order, recomputed from the front-end declarations (C01.plan); no executor is called through a cell signature with a different event class unless the trigger is on the primary-base chain of the event (C18.cast); queued / deferred events are stored by value (C04.target). Payload through user conversions is not decided.')
 
@@ -110,6 +110,6 @@ prop('C20', rules=['poly', 'queues', 'copymp11'], take=['C20.poly', 'C20.erasure
      explanation='Stored events: basic_polymorphic_base assignments test self-assignment, destroy the held object, take the control block and copy / move, in this order; constructors take the control block then copy / move; the destructor destroys once; the value constructors store into buffer or heap in agreement with the control block they select; control_block::move nulls a stolen heap pointer, destroy is null-tolerant; event_occurrence is the first base of pooled classes; the exit-point forwarder reads the type it is handed; pool erase only after marked_for_deletion; queue elements store the event by value; inline / heap selection over a size x alignment x nothrow-move matrix and the control-block capacity are asserted at compile time (C20.cb). Absence of use-after-free over operation histories is not decided.')
 
 SIB_TAKE = ['C13.siblings', 'C01.plan', 'C18.frow-event', 'C01.mask', 'C02.order', 'C02.internal', 'C19.slots', 'C06.row-result', 'C06.or', 'C06.nt', 'C06.regions', 'C09.exit-active', 'C04.flag', 'C04.flag-test', 'C04.flag-drain', 'C04.flag-exit', 'C04.queue-ops', 'C11.gate', 'C12.catch', 'C02.cascade', 'C10.first', 'C05.cell', 'C03.visit-set']
-prop('C13', rules=['siblings', 'siblings_cmp', 'plans', 'plans_mp11', 'C01.mask', 'rows', 'regions', 'flag', 'queues', 'gate', 'catch', 'cascade', 'drain', 'defer_plan', 'visitset'], take=SIB_TAKE,
-     floors={'sibling-patterns': 60, 'plan-table:back': 1, 'plan-table:back11': 1, 'plan-table:backmp11': 1, **FLOOR_EXT},
+prop('C13', rules=['siblings', 'siblings_cmp', 'plans', 'plans_mp11', 'plans_fct', 'plans_mp11_table', 'C01.mask', 'rows', 'regions', 'flag', 'queues', 'gate', 'catch', 'cascade', 'drain', 'defer_plan', 'visitset'], take=SIB_TAKE,
+     floors={'sibling-patterns': 60, 'plan-table:back': 1, 'plan-table:back11': 1, 'plan-table:backmp11': 1, 'plan-table:back-fct': 1, 'mp11-table': 1, 'fct-chain-add': 1, **FLOOR_EXT},
      explanation='Equivalence of configurations, decided structurally: (1) sibling agreement - every function of back and back11 (state_machine.hpp, dispatch_table.hpp) instantiated for the same front-end machine and the same arguments in both back-ends has the same set of abstract path signatures (resolved library callees, enumerator / flag arguments, member writes, returns); (2) the dispatch plans of back, back11 and backmp11 (flat_fold and function_pointer_array share them) each equal the one oracle computed from the front-end declarations, hence each other; (3) every shape rule that has instances in several back-ends (execution order, policy slots, result codes, run-to-completion flag, queue discipline, blocking gate, exception handling, cascades) is evaluated on all of them. Trace equality over event sequences is not decided.')
